@@ -17,7 +17,7 @@ def check(ctx, src):
     me = mc.func("macroexpand")
     ctx.require(me is not None, "macroexpand not found")
     m = pyq.contains(me, lambda n: isinstance(n, ast.Assign) and norm(n.targets[0]) == "m" and isinstance(n.value, ast.BoolOp))
-    ctx.require(m is not None, "macroexpand: lookup expression not found")
+    ctx.need(m is not None, "macroexpand: lookup expression not found")
     t = flat(m.value)
     ctx.check("for d in [compiler.extra_macros, *(s['macros'] for s in reversed(compiler.local_state_stack))] if fn in d" in t, "MAC-ORDER", f"{MC}|macroexpand|compiler part", "extra macros must be consulted first, then local states from innermost to outermost",
               MC, m.lineno, witness="a local macro shadows hy.eval's :macros, or an outer local macro shadows an inner one", detail="[extra_macros, *reversed(local states)]")
